@@ -9,19 +9,25 @@
 (*   receiver : Route  (registry miss, then removal from the table and     *)
 (*              hand-over through the call's one-shot channel)             *)
 (*   peer     : Reply(r) for any call it has seen, as often as it likes,   *)
-(*              in any order, or for an id nobody uses (Stray)             *)
+(*              in any order, or for an id nobody uses (Stray), or for the *)
+(*              reply pid of a call as it was in an earlier incarnation of *)
+(*              the node: same number and serial, other creation (Stale)   *)
 (*                                                                         *)
 (* Switches.  Protection RemoveOnTimeout (TRUE in the code); deviation     *)
-(* LeakOnSendError (FALSE since the fix of commit 18c56d0).                *)
+(* LeakOnSendError (FALSE since the fix of commit 18c56d0).  Protection    *)
+(* MatchCreation (TRUE in the code: the table key holds the creation).     *)
 (***************************************************************************)
 EXTENDS Integers, Sequences, FiniteSets, TLC
 CONSTANTS Callers,          \* 1..n
           ConnStates,       \* subset of {"up", "absent", "broken"} the scenario may start in
-          MaxReplies, LeakOnSendError, RemoveOnTimeout
+          MaxReplies, LeakOnSendError, RemoveOnTimeout, MatchCreation
 VARIABLES pc, rid, table, conn, wire, inbox, result, nextRid, replies, delivered, hist
 vars == <<pc, rid, table, conn, wire, inbox, result, nextRid, replies, delivered, hist>>
 None == 0
 Stray == 99            \* a call id no caller owns
+Stale(r) == r + 50     \* the reply pid of call r with the creation of an earlier incarnation of the node
+IsStale(a) == a > 50 /\ a < Stray
+Key(a) == IF IsStale(a) /\ ~MatchCreation THEN a - 50 ELSE a     \* what the receiver looks up in the table
 R(k, r) == [k |-> k, r |-> r]
 Init == /\ pc = [c \in Callers |-> "idle"] /\ rid = [c \in Callers |-> None] /\ table = {}
         /\ conn \in ConnStates /\ wire = {} /\ inbox = <<>>
@@ -53,16 +59,17 @@ GotReply(c) == Go(c, "awaiting", "returned") /\ result[c].k # "none" /\ H("wake"
 PeerReply(r) == /\ conn = "up" /\ replies < MaxReplies /\ replies' = replies + 1 /\ inbox' = Append(inbox, r) /\ H("reply", r)
                 /\ UNCHANGED <<pc, rid, table, conn, wire, result, nextRid, delivered>>
 Route == /\ inbox # <<>> /\ inbox' = Tail(inbox) /\ H("route", Head(inbox))
-         /\ LET r == Head(inbox) IN
-            IF r \in table
-            THEN /\ table' = table \ {r}
-                 /\ LET c == CHOOSE c \in Callers : rid[c] = r IN
+         /\ LET r == Head(inbox)
+                k == Key(r) IN
+            IF k \in table
+            THEN /\ table' = table \ {k}
+                 /\ LET c == CHOOSE c \in Callers : rid[c] = k IN
                     result' = [result EXCEPT ![c] = IF result[c].k = "none" /\ pc[c] # "timedout" THEN R("reply", r) ELSE result[c]]
-                 /\ delivered' = [delivered EXCEPT ![r] = @ + 1]
+                 /\ delivered' = [delivered EXCEPT ![k] = @ + 1]
             ELSE UNCHANGED <<table, result, delivered>>
          /\ UNCHANGED <<pc, rid, conn, wire, nextRid, replies>>
 Next == \/ \E c \in Callers : Alloc(c) \/ Insert(c) \/ NoConn(c) \/ SendOk(c) \/ SendFail(c) \/ Timeout(c) \/ Cleanup(c) \/ GotReply(c)
-        \/ \E r \in wire \cup {Stray} : PeerReply(r)
+        \/ \E r \in wire \cup {Stray} \cup {Stale(w) : w \in wire} : PeerReply(r)
         \/ Route
 Spec == Init /\ [][Next]_vars
 \* ---- C17
